@@ -28,6 +28,12 @@ check("C03", "exploration",
   "Differential: a defect common to all seven paths is not visible here (C01/C02 look at that); map-typed rows compare counts and re-assembly only; small scope as C01.",
   "DESIGN.md §2 C03")
 
+check("C10", "exploration",
+  "bounded exhaustive enumeration of schema x sorting spec x container x row-kind sequence x Write batching x sort-run size on the real buffers and SortingWriter; oracle = permutation with intact rows + order under an independently written comparator + agreement with Schema.Comparator and the file's sorting metadata",
+  "7 row types (required, optional non-pointer, pointer, string, bool/uuid keys, plus a repeated and a nested-optional non-key column) x 13 sorting-column lists (1-2 columns, asc/desc, nulls first/last) x 6 containers (GenericBuffer, Buffer, RowBuffer, SortingWriter with and without duplicate dropping, sorted buffer written with WriteRowGroup) x all sequences of <=2 (3 thorough) row kinds over the product of the key alphabets, 3-/4-sequences over the first key, 3-run patterns with run lengths around the 8-wide row-index kernel, up/down sweeps, x Write batchings and sort-run sizes. Every output must be a permutation of the input with every row intact across columns, ordered by a reference comparator written from the SortingColumn contract, consistent with Schema.Comparator, and (SortingWriter) carry the configured sorting metadata; with dedupe one row per key.",
+  "Sort keys exclude NaN and repeated key columns; n is small except for run-structured inputs; nulls-first/last is taken to be independent of direction, as the SortingColumn interface documents.",
+  "DESIGN.md §2 C10")
+
 NOT_YET = "check not built yet in this round (design in DESIGN.md §2); not claimed until its check exists"
 
 m = {
